@@ -92,6 +92,10 @@ func runC03(c *core.Ctx) {
 	// the reflection side may memoise per Go type, under the type itself
 	c.Doc("C03.cache-keys", "a table kept by the reflection codecs is keyed by the reflect.Type, not by a rendering of it", 1)
 	rulePackageCacheKeys(c, "C03.cache-keys", "type/encoding", "type/basic")
+	// where the repository itself states a signature next to the Go value it hands to the
+	// reflection encoder, the type of that value is the type the signature describes
+	c.Doc("C03.stated-types", "bus.NewParams / bus.NewResponse hand the reflection codec Go values of the types the signature next to them describes (rule shared with C05)", 100)
+	ruleStatedTypes(c, "C03.stated-types")
 }
 
 func ruleConstructors(c *core.Ctx, prims map[string]*primInfo) {
@@ -108,6 +112,9 @@ func ruleConstructorsAs(c *core.Ctx, prims map[string]*primInfo, rule string) {
 		if !scalar {
 			// constructors whose reader and Go type are derived from a signature string:
 			// one string for both, and for an object reference the one dynamic values use
+			if r.Signature == "o" && r.ReaderSig == "" && r.TypSig == "" {
+				c.Undecided(rule, key+"/derived", r.Pos, "cannot see which signature the reader and the Go type of an object reference are derived from")
+			}
 			if r.ReaderSig != "" || r.TypSig != "" {
 				bad := ""
 				want := r.Signature
